@@ -35,6 +35,7 @@ Guard(W, S, ev) ==
     [] ev.op = "snap"        -> ev.o \in DOMAIN S.stream
     [] ev.op = "restore"     -> ev.name \in DOMAIN S.snap
     [] ev.op = "noise"       -> TRUE
+    [] ev.op = "gdraw"       -> TRUE
     [] OTHER -> FALSE
 
 Effect(W, S, ev) ==
@@ -50,6 +51,7 @@ Effect(W, S, ev) ==
     [] ev.op = "snap"        -> [S EXCEPT !.snap = (ev.name :> S.stream[ev.o]) @@ @]      \* independent copy, object unaffected
     [] ev.op = "restore"     -> [S EXCEPT !.stream = (ev.o :> S.snap[ev.name]) @@ @]       \* argument copied, snapshot reusable
     [] ev.op = "noise"       -> S                                                          \* unrelated activity
+    [] ev.op = "gdraw"       -> [S EXCEPT !.gdraws = @ + 1]                                \* the user draws from the global generator
 
 Clauses(W, S, ev) ==
   IF ~Guard(W, S, ev) THEN [ known_event |-> FALSE ]
